@@ -8,6 +8,10 @@ Part D: the policies of components/queue_policies/ (AdaptiveLIFO, RED, Deadline/
 Part E: Queue.handle_event, QueuedResource.handle_event and the worker adapter (offered once; handed over once).
 Part F: industrial variants: ShiftedServer (three clauses wait for fixes/C08_shifted-server-*.diff, see the source
         tests SHIFT_*_REPAIRED), BalkingQueue.
+Part G: industrial variants that buffer work: BatchProcessor (timeout-armed invariant: no stranded partial batch),
+        ConveyorBelt, GateController, PooledCycleResource, InspectionStation, RenegingQueuedResource; two clauses wait for
+        fixes/C08_batch-processor-full-batch-first.diff / fixes/C08_pooled-cycle-handoff-reserves-unit.diff (source tests
+        BP_FULL_FIRST_REPAIRED, PC_HANDOFF_REPAIRED); bounded stand-in `industrial-buffers` (triage/c08_industrial.py).
 See DESIGN.md section 3-C08 for the clauses and what is not decided.
 """
 from pyvc.spec import *
@@ -24,6 +28,41 @@ loop(F_DLQ, "DeadlineQueue.pop", 1, modifies=[("DeadlineQueue", "_heap"), ("Dead
           ("expired-monotone", lambda L: L.self._expired >= L.old(L.self)._expired),
           ("no-clock-nothing-expires", lambda L: True if L.now is not None
            else (L.self._expired == L.old(L.self)._expired) & (slen(L.self._heap) == slen(L.old(L.self)._heap)))])
+# BatchProcessor._process_batch (part G): `result = [Event(...) for item in batch]` after the service delay, desugared to
+# a loop (loader rule 7): one output per item of the batch, in batch order, for the downstream, stamped now
+F_BP = "happysimulator/components/industrial/batch_processor.py"
+_EV_FIELDS = [("Event", f) for f in ("time", "event_type", "daemon", "target", "on_complete", "_sort_index", "_id",
+                                     "_cancelled", "context")]
+_BP_LOOP = loop(F_BP, "BatchProcessor._process_batch", "comp1", modifies=_EV_FIELDS,
+                types={"result": lambda: Seq(Ref(Event))},
+                inv=[("one-output-per-item-so-far", lambda L: slen(L.result) == L.i),
+                     ("outputs-so-far-carry-their-items-downstream-now", lambda L: _outputs_for(
+                         L.self, L.self.downstream, _evseq(L.result), _evseq(L.seq), L.i, typed_src=True))])
+# (no fresh_only frame here: its lambda arrays make z3 take a minute per REFUTED loop obligation.  The loop cut forgets
+#  the Event fields of every event instead, and the one fact about an older event that is needed afterwards - the armed
+#  timeout stays live - is carried through the loop as an invariant)
+_BP_LOOP.inv.append(("armed-timeout-untouched", lambda L: _bp_timeout_live(L.self)))
+# GateController._do_open (part G): `while self._queue:` releases everything that queued while the gate was closed - so far
+# the first k queued items left, in queue order, each counted and forwarded once; the rest still waits in order
+F_GATE = "happysimulator/components/industrial/gate_controller.py"
+loop(F_GATE, "GateController._do_open", 1,
+     modifies=[("GateController", "_queue"), ("GateController", "_passed_through")] + _EV_FIELDS,
+     types={"results": lambda: Seq(Ref(Event)), "queued": lambda: Ref(Event)},
+     inv=[("released-plus-waiting-is-what-waited", lambda L: slen(L.results) + slen(L.self._queue)
+           == slen(L.old(L.self)._queue)),
+          ("the-rest-still-waits-in-order", lambda L: mk_bool(_evseq(L.self._queue) == z3.Extract(
+              _evseq(L.old(L.self)._queue), num(slen(L.results)), num(slen(L.self._queue))))),
+          ("each-released-item-counted-once", lambda L: L.self._passed_through
+           == L.old(L.self)._passed_through + slen(L.results)),
+          ("released-in-queue-order-downstream-now", lambda L: _outputs_for(
+              L.self, L.self.downstream, _evseq(L.results), _evseq(L.old(L.self)._queue), slen(L.results), typed_src=True))])
+# PooledCycleResource (part G), only on the tree repaired by fixes/C08_pooled-cycle-handoff-reserves-unit.diff: the id of
+# the hand-over event just created is not the id of an earlier hand-over (event ids are unique: C03 owns that clause)
+F_PC = "happysimulator/components/industrial/pooled_cycle.py"
+from pyvc import ctx as _ctx0  # noqa: E402
+if "_handoffs" in open(_ctx0.REPO + "/" + F_PC).read():
+    ghost(F_PC, "PooledCycleResource._start_cycle", "self._handoffs.add(handoff._id)",
+          "import specs.C08 as _S; _S.assume_unique_event_id(self, handoff)", where="before")
 from specs.common import *  # noqa: E402,F401
 
 from happysimulator.components.queue_policy import (QueuePolicy, FIFOQueue, LIFOQueue, PriorityQueue,  # noqa: E402
@@ -1229,3 +1268,581 @@ fn(BalkingQueue, "is_empty", uses=POLICY_IFACE, inv=False, focus=lambda s: [s.se
     ("iff-inner-empty", lambda s: iff(s.result, s.self._inner.g_size == 0)), ("pure", lambda s: unchanged(s, s.self))])
 fn(BalkingQueue, "__len__", uses=POLICY_IFACE, inv=False, focus=lambda s: [s.self._inner], ensures=[
     ("is-inner-len", lambda s: s.result == s.self._inner.g_size), ("pure", lambda s: unchanged(s, s.self))])
+
+
+# ============================================================================ G. industrial variants that buffer work
+# BatchProcessor (components/industrial/batch_processor.py): items are buffered until batch_size of them are there or the
+# timeout armed by the first buffered item fires; the batch is then in service for process_time and each of its items is
+# completed (forwarded downstream) exactly once.
+from happysimulator.components.industrial import batch_processor as _bp_mod  # noqa: E402
+from happysimulator.components.industrial.batch_processor import BatchProcessor  # noqa: E402
+from pyvc.heap import REG as _REG  # noqa: E402
+
+_ENTITY_INIT = [Entity.__init__]
+
+
+def _attached(s):
+    """constructors of entities: Entity.__init__ stores _clock = None (outside the common typing 'entities are
+    attached'); while a ctor task runs it only stores the name"""
+    def _init(self, name):
+        self.name = name
+    Entity.__init__ = _init
+    return []
+
+
+def _detach(s):
+    Entity.__init__ = _ENTITY_INIT[0]
+
+
+EVSEQ = Seq(Ref(Event))
+
+
+def _evseq(x):
+    """raw sequence term of a list of events (symbolic, or a concrete list of symbolic events)"""
+    return x.term if hasattr(x, "term") else EVSEQ.unwrap(x)
+
+
+def _ev_arr(field, state=None):
+    owner, ty = _REG.field(Event, field)
+    return _pyvc_ctx.cur().heap.array((owner, field), ty, state)
+
+
+def _outputs_for(owner, downstream, out, src, n, typed_src=False):
+    """for every j < n: out[j] is an event for `downstream`, stamped with the owner's clock reading, of the type of src[j]
+    (out, src: raw sequence terms of event references)"""
+    t_arr, ty_arr, tg_arr = _ev_arr("time"), _ev_arr("event_type"), _ev_arr("target")
+    now = num(now_ns(owner))
+    alloc = _pyvc_ctx.cur().heap.alloc       # (typing: the outputs are allocated objects - not one a later step allocates)
+    return forall(Int, lambda j: implies((0 <= j) & (j < n), mk_bool(z3.And(
+        out[j.t] >= 1, out[j.t] <= alloc, z3.And(src[j.t] >= 1, src[j.t] <= alloc) if typed_src else z3.BoolVal(True),
+        TIME.dt.nanoseconds(z3.Select(t_arr, out[j.t])) == now,
+        z3.Select(ty_arr, out[j.t]) == z3.Select(ty_arr, src[j.t]),
+        z3.Select(tg_arr, out[j.t]) == downstream._ref))), "j")
+
+
+# fixes/C08_batch-processor-full-batch-first.diff: a full batch is started before the timeout is armed (finding
+# C08/batch-of-one-with-timeout-exceeds-batch-size: with batch_size == 1 and a timeout the first item only arms the timeout,
+# the second one starts a batch of two).  Until the repair is in the tree that configuration is excluded.
+BP_FULL_FIRST_REPAIRED = _inspect.getsource(_bp_mod.BatchProcessor.handle_event).find("self.batch_size") \
+    < _inspect.getsource(_bp_mod.BatchProcessor.handle_event).find("self.timeout_s")
+BP_TIMEOUT = "_BatchTimeout"
+
+cls(BatchProcessor, fields={"downstream": Ref(Entity), "batch_size": Int, "process_time": Real, "timeout_s": Real,
+                            "_buffer": Seq(Ref(Event)), "_processing": Bool, "_timeout_event": OptRef(Event),
+                            "_batches_processed": Int, "_items_processed": Int, "_timeouts": Int},
+    const=["downstream", "batch_size", "process_time", "timeout_s"],
+    inv=[("config", lambda o: (o.batch_size >= 1) & (o.process_time >= 0)
+          & (True if BP_FULL_FIRST_REPAIRED else (o.batch_size >= 2) | (o.timeout_s <= 0))),
+         # a full batch is started at once, so what waits is always a partial batch: no batch ever exceeds batch_size
+         ("buffer-holds-a-partial-batch", lambda o: slen(o._buffer) < o.batch_size),
+         # no stranding: whenever items wait (and a timeout is configured) the flush timeout is armed - and only then
+         ("partial-batch-waits-iff-timeout-armed", lambda o: implies(
+             o.timeout_s > 0, iff(slen(o._buffer) > 0, o._timeout_event is not None))),
+         ("armed-timeout-is-a-live-timeout-event-of-this-processor", lambda o: _bp_timeout_live(o)),
+         ("counters-nonneg", lambda o: (o._batches_processed >= 0) & (o._items_processed >= 0) & (o._timeouts >= 0))],
+    guarantee=[("completions-monotone", lambda old, new: (new._items_processed >= old._items_processed)
+                & (new._batches_processed >= old._batches_processed))])
+
+ctor(BatchProcessor, args={"name": Str, "downstream": Ref(Entity), "batch_size": Int, "process_time": Real, "timeout_s": Real},
+     setup=_attached, teardown=_detach, inv=False,
+     ensures=[("starts-empty-and-idle", lambda s: (slen(s.self._buffer) == 0) & (s.self._timeout_event is None)
+               & (s.self._items_processed == 0) & (s.self._batches_processed == 0) & (s.self._timeouts == 0)
+               & Not(s.self._processing)),
+              ("config-stored", lambda s: (s.self.batch_size == s.batch_size) & (s.self.process_time == s.process_time)
+               & (s.self.timeout_s == s.timeout_s) & same(s.self.downstream, s.downstream))],
+     raises={ValueError: [("only-bad-config", lambda s: (s.batch_size <= 0) | (s.process_time < 0))]})
+
+
+def _bp_timeout_live(o):
+    return True if o._timeout_event is None else (Not(o._timeout_event._cancelled) & same(o._timeout_event.target, o)
+                                                  & (o._timeout_event.event_type == BP_TIMEOUT))
+
+
+def _yielded(s):
+    """the call under check suspended at least once (it returned a generator that was driven to its end)"""
+    return s._seg is not s._old
+
+
+def _bp_is_timeout(s):
+    return _truthy_path(s.old(s.event).event_type == BP_TIMEOUT)
+
+
+def _bp_batch(s):
+    """(raw sequence term, length) of the batch a call puts in service: what was buffered at entry, plus the offered item"""
+    b = seq_term(s.old(s.self)._buffer)
+    if hasattr(s, "event") and not _bp_is_timeout(s):
+        return z3.Concat(b, z3.Unit(s.event._ref)), slen(s.old(s.self)._buffer) + 1
+    return b, slen(s.old(s.self)._buffer)
+
+
+def _bp_at_yield_in_service(s, y):
+    """the batch went into service as a whole: nothing is left in the buffer, its timeout is disarmed"""
+    return (slen(s.self._buffer) == 0) & (s.self._timeout_event is None) & (y == s.self.process_time) \
+        & unchanged(s, s.self, "_items_processed", "_batches_processed")
+
+
+def _bp_batch_within_size(s, y):
+    _, n = _bp_batch(s)
+    return (n >= 1) & (n <= s.self.batch_size)
+
+
+def _bp_completed_post(s):
+    """exactly-once completion: when the batch leaves service each of its items is counted once and forwarded once, in
+    order; what was buffered meanwhile is not touched"""
+    if not _yielded(s):
+        return True
+    batch, n = _bp_batch(s)
+    r = s.result
+    return (s.self._items_processed == s.pre(s.self)._items_processed + n) \
+        & (s.self._batches_processed == s.pre(s.self)._batches_processed + 1) \
+        & mk_bool(seq_term(s.self._buffer) == seq_term(s.pre(s.self)._buffer)) \
+        & unchanged_since(s, s.self, "_timeout_event", "_timeouts") \
+        & (slen(r) == n) & _outputs_for(s.self, s.self.downstream, _evseq(r), batch, n)
+
+
+def unchanged_since(s, obj, *fields):
+    """the fields have the value they had when the last segment started (after the last yield)"""
+    ok = True
+    pre = s.pre(obj)
+    for f in fields:
+        a, b = getattr(obj, f), getattr(pre, f)
+        if a is None or b is None:
+            ok = ok & (a is None and b is None)
+        elif hasattr(a, "_ref"):
+            ok = ok & same(a, b)
+        else:
+            ok = ok & (a == b)
+    return ok
+
+
+def _bp_timeout_post(s):
+    """a timeout flushes the partial batch: afterwards nothing waits (the buffered items are in service)"""
+    if not _yielded(s):
+        return (slen(s.old(s.self)._buffer) == 0) & (len(s.result) == 0) & (slen(s.self._buffer) == 0) \
+            & (s.self._timeout_event is None) & unchanged(s, s.self, "_items_processed", "_batches_processed", "_timeouts")
+    return slen(s.old(s.self)._buffer) > 0
+
+
+def _bp_offer_post(s):
+    """an offered item is buffered (behind the others) or goes into service with the whole buffer - never both, never
+    neither; a batch starts exactly when the item completes it"""
+    if _bp_is_timeout(s):
+        return _bp_timeout_post(s)
+    o, n = s.old(s.self), s.self
+    full = slen(o._buffer) + 1 >= n.batch_size
+    if _yielded(s):
+        return full
+    return Not(full) & mk_bool(seq_term(n._buffer) == z3.Concat(seq_term(o._buffer), z3.Unit(s.event._ref))) \
+        & unchanged(s, s.self, "_items_processed", "_batches_processed", "_timeouts")
+
+
+def _bp_arming_post(s):
+    """the first item of a partial batch arms the flush timeout: exactly that event, fresh and live, is handed to the
+    engine, due timeout_s from now; later items leave the armed timeout alone"""
+    if _bp_is_timeout(s) or _yielded(s):
+        return True
+    o, n = s.old(s.self), s.self
+    r = s.result
+    if _truthy_path(n.timeout_s > 0) and _truthy_path(slen(o._buffer) == 0):
+        if len(r) != 1 or n._timeout_event is None:
+            return False
+        e = r[0]
+        return same(e, n._timeout_event) & Not(same(e, s.event)) & (e.event_type == BP_TIMEOUT) & same(e.target, n) \
+            & Not(e._cancelled) & (ns(e.time) >= now_ns(n)) & (ns(e.time) <= now_ns(n) + n.timeout_s * 1000000000) \
+            & (ns(e.time) > now_ns(n) + n.timeout_s * 1000000000 - 1)
+    return (len(r) == 0) & unchanged_since(s, s.self, "_timeout_event")
+
+
+_BP_STABLE = [("Event", "event_type"), ("Event", "context")]
+_BP_RELY = [lambda s, b, y: ns(s.self._clock._current_time) >= ns(b.pre(s.self._clock)._current_time)]
+_BP_AT_YIELD = [("whole-buffer-in-service-timeout-disarmed", _bp_at_yield_in_service),
+                ("batch-within-batch-size", _bp_batch_within_size)]
+
+fn(BatchProcessor, "handle_event", args={"event": Ref(Event, variants=[Event])},
+   yields=Yields(at_yield=_BP_AT_YIELD + [
+       ("timeout-counted-once", lambda s, y: s.self._timeouts == s.old(s.self)._timeouts + (1 if _bp_is_timeout(s) else 0))],
+       stable=_BP_STABLE, rely=_BP_RELY),
+   ensures=[("buffered-or-in-service-exactly-once", _bp_offer_post),
+            ("first-buffered-item-arms-the-timeout", _bp_arming_post),
+            ("batch-completed-exactly-once-in-order", _bp_completed_post)])
+
+fn(BatchProcessor, "_handle_timeout",
+   yields=Yields(at_yield=_BP_AT_YIELD + [
+       ("timeout-counted-once", lambda s, y: s.self._timeouts == s.old(s.self)._timeouts + 1)],
+       stable=_BP_STABLE, rely=_BP_RELY),
+   ensures=[("timeout-flushes-the-partial-batch", _bp_timeout_post),
+            ("batch-completed-exactly-once-in-order", _bp_completed_post)])
+
+
+# ---- ConveyorBelt (components/industrial/conveyor.py): a bounded number of items in transit, no waiting room ----------
+from happysimulator.components.industrial.conveyor import ConveyorBelt  # noqa: E402
+
+cls(ConveyorBelt, fields={"downstream": Ref(Entity), "transit_time": Real, "_capacity": Int, "_items_in_transit": Int,
+                          "_items_transported": Int, "_items_rejected": Int},
+    const=["downstream", "transit_time", "_capacity"],
+    inv=[("transit-time-nonneg", lambda o: o.transit_time >= 0),
+         ("in-transit-within-capacity", lambda o: (o._items_in_transit >= 0)
+          & implies(o._capacity > 0, o._items_in_transit <= o._capacity)),
+         ("counters-nonneg", lambda o: (o._items_transported >= 0) & (o._items_rejected >= 0))],
+    guarantee=[("counters-monotone", lambda old, new: (new._items_transported >= old._items_transported)
+                & (new._items_rejected >= old._items_rejected))])
+
+ctor(ConveyorBelt, args={"name": Str, "downstream": Ref(Entity), "transit_time": Real, "capacity": Int},
+     setup=_attached, teardown=_detach,
+     ensures=[("starts-empty", lambda s: (s.self._items_in_transit == 0) & (s.self._items_transported == 0)
+               & (s.self._items_rejected == 0) & (s.self._capacity == s.capacity) & (s.self.transit_time == s.transit_time)
+               & same(s.self.downstream, s.downstream))],
+     raises={ValueError: [("only-negative-transit-time", lambda s: s.transit_time < 0)]})
+
+fn(ConveyorBelt, "has_capacity", ensures=[
+    ("room-iff-unbounded-or-below-capacity", lambda s: iff(s.result, (s.self._capacity <= 0)
+                                                           | (s.self._items_in_transit < s.self._capacity))),
+    ("pure", lambda s: unchanged(s, s.self))])
+
+
+def _one_output(s, target, item):
+    """the result is exactly one event: for `target`, stamped now, of the item's type"""
+    r = s.result
+    if r is None or len(r) != 1:
+        return False
+    e = r[0]
+    return same(e.target, target) & (ns(e.time) == now_ns(s.self)) & (e.event_type == item.event_type) & Not(same(e, item))
+
+
+def _belt_post(s):
+    o, n = s.old(s.self), s.self
+    full = (o._capacity > 0) & (o._items_in_transit >= o._capacity)
+    if not _yielded(s):
+        # rejected-and-counted: nothing else changes, nothing is emitted
+        return full & (n._items_rejected == o._items_rejected + 1) & (len(s.result) == 0) \
+            & unchanged(s, s.self, "_items_in_transit", "_items_transported")
+    p = s.pre(s.self)
+    return Not(full) & (n._items_in_transit == p._items_in_transit - 1) & (n._items_transported == p._items_transported + 1) \
+        & (n._items_rejected == p._items_rejected) & _one_output(s, n.downstream, s.event)
+
+
+_OWN_UNIT_RELY = [lambda s, b, y: ns(s.self._clock._current_time) >= ns(b.pre(s.self._clock)._current_time)]
+
+fn(ConveyorBelt, "handle_event", args={"event": Ref(Event, variants=[Event])},
+   yields=Yields(
+       at_yield=[("transit-takes-the-transit-time", lambda s, y: y == s.self.transit_time),
+                 ("in-transit-while-the-delay-runs", lambda s, y: (s.self._items_in_transit == s.old(s.self)._items_in_transit + 1)
+                  & unchanged(s, s.self, "_items_transported", "_items_rejected"))],
+       stable=_BP_STABLE,
+       # the item this process put on the belt is still counted when it resumes (other items add / remove only their own)
+       rely=_OWN_UNIT_RELY + [lambda s, b, y: s.self._items_in_transit >= 1]),
+   ensures=[("rejected-and-counted-or-transported-exactly-once", _belt_post)])
+
+
+# ---- GateController (components/industrial/gate_controller.py): passes items while open, holds them (FIFO, bounded)
+# while closed, releases all of them when it opens
+from happysimulator.components.industrial.gate_controller import GateController  # noqa: E402
+
+cls(GateController, fields={"downstream": Ref(Entity), "_is_open": Bool, "_queue_capacity": Int, "_queue": Seq(Ref(Event)),
+                            "_passed_through": Int, "_queued_while_closed": Int, "_rejected": Int, "_open_cycles": Int},
+    const=["downstream", "_queue_capacity"],
+    inv=[("waiting-room-within-capacity", lambda o: implies(o._queue_capacity > 0, slen(o._queue) <= o._queue_capacity)),
+         # no stranding: an open gate holds nothing back
+         ("open-gate-holds-nothing", lambda o: implies(o._is_open, slen(o._queue) == 0)),
+         ("every-waiting-item-was-counted-as-queued", lambda o: o._queued_while_closed >= slen(o._queue)),
+         ("counters-nonneg", lambda o: (o._passed_through >= 0) & (o._rejected >= 0) & (o._open_cycles >= 0))])
+
+
+def _gate_accounted(o):
+    """items offered so far = passed + rejected + waiting"""
+    return o._passed_through + o._rejected + slen(o._queue)
+
+
+def _gate_open_post(s):
+    o, n = s.old(s.self), s.self
+    r = s.result
+    return n._is_open & (slen(n._queue) == 0) & (slen(r) == slen(o._queue)) \
+        & (n._passed_through == o._passed_through + slen(o._queue)) \
+        & _outputs_for(n, n.downstream, _evseq(r), _evseq(o._queue), slen(o._queue)) \
+        & (n._open_cycles == o._open_cycles + ite(o._is_open, 0, 1)) \
+        & unchanged(s, s.self, "_rejected", "_queued_while_closed")
+
+
+def _gate_close_post(s):
+    return Not(s.self._is_open) & (len(s.result) == 0) & mk_bool(_evseq(s.self._queue) == _evseq(s.old(s.self)._queue)) \
+        & unchanged(s, s.self, "_passed_through", "_rejected", "_queued_while_closed", "_open_cycles")
+
+
+for _m in ("_do_open", "open"):
+    fn(GateController, _m, ensures=[("everything-that-waited-is-released-once-in-order", _gate_open_post)])
+for _m in ("_do_close", "close"):
+    fn(GateController, _m, ensures=[("closing-touches-no-item", _gate_close_post)])
+
+
+def _gate_offer_post(s):
+    o, n = s.old(s.self), s.self
+    ty = s.old(s.event).event_type
+    if _truthy_path(ty == "_GateOpen"):
+        return _gate_open_post(s)
+    if _truthy_path(ty == "_GateClose"):
+        return _gate_close_post(s)
+    full = (o._queue_capacity > 0) & (slen(o._queue) >= o._queue_capacity)
+    same_flag = iff(n._is_open, o._is_open) & unchanged(s, s.self, "_open_cycles")
+    if _truthy_path(o._is_open):
+        return same_flag & (n._passed_through == o._passed_through + 1) & _one_output(s, n.downstream, s.event) \
+            & unchanged(s, s.self, "_rejected", "_queued_while_closed") & (slen(n._queue) == 0)
+    if len(s.result) != 0:
+        return False
+    rejected = same_flag & (n._rejected == o._rejected + 1) & mk_bool(_evseq(n._queue) == _evseq(o._queue)) \
+        & unchanged(s, s.self, "_passed_through", "_queued_while_closed")
+    queued = same_flag & (n._queued_while_closed == o._queued_while_closed + 1) \
+        & mk_bool(_evseq(n._queue) == z3.Concat(_evseq(o._queue), z3.Unit(s.event._ref))) \
+        & unchanged(s, s.self, "_passed_through", "_rejected")
+    return ite_b(full, rejected, queued)
+
+
+fn(GateController, "handle_event", args={"event": Ref(Event, variants=[Event])}, ensures=[
+    ("passed-or-waiting-or-rejected-and-counted-exactly-once", _gate_offer_post),
+    ("offered-equals-passed-plus-rejected-plus-waiting", lambda s: _gate_accounted(s.self) == _gate_accounted(s.old(s.self))
+        + (0 if _truthy_path((s.old(s.event).event_type == "_GateOpen") | (s.old(s.event).event_type == "_GateClose")) else 1))])
+
+
+# ---- PooledCycleResource (components/industrial/pooled_cycle.py): pool_size identical units, each busy for cycle_time per
+# item; items wait FIFO (bounded) while no unit is free.
+# fixes/C08_pooled-cycle-handoff-reserves-unit.diff: a completed cycle hands the freed unit to the head of the queue by
+# re-sending that item to the resource; without the repair the unit is free meanwhile and an arrival delivered in between
+# (same instant) takes it - the waiting item is then queued again behind later arrivals, or rejected when the bounded
+# queue has filled up (finding C08/pooled-cycle-handoff-overtaken, triage/c08_pooled_cycle_overtake.py).  The repair
+# reserves the unit (neither available nor active) for the hand-over event, recorded by id in `_handoffs`.
+from happysimulator.components.industrial import pooled_cycle as _pc_mod  # noqa: E402
+from happysimulator.components.industrial.pooled_cycle import PooledCycleResource  # noqa: E402
+
+PC_HANDOFF_REPAIRED = "_handoffs" in _inspect.getsource(_pc_mod.PooledCycleResource)
+
+cls(PooledCycleResource, fields=dict({"pool_size": Int, "cycle_time": Real, "downstream": OptRef(Entity), "_queue_capacity": Int,
+                                      "_available": Int, "_active": Int, "_queue": Seq(Ref(Event)), "_completed": Int,
+                                      "_rejected": Int}, **({"_handoffs": Set(Int)} if PC_HANDOFF_REPAIRED else {})),
+    const=["pool_size", "cycle_time", "downstream", "_queue_capacity"],
+    inv=[("config", lambda o: (o.pool_size >= 1) & (o.cycle_time >= 0)),
+         # work in service never exceeds the pool: every unit is available, active or (repair) reserved for a hand-over
+         ("units-partitioned", lambda o: (o._available >= 0) & (o._active >= 0)
+          & (o._available + o._active + _pc_reserved(o) == o.pool_size)),
+         ("waiting-room-within-capacity", lambda o: implies(o._queue_capacity > 0, slen(o._queue) <= o._queue_capacity)),
+         ("counters-nonneg", lambda o: (o._completed >= 0) & (o._rejected >= 0))],
+    guarantee=[("counters-monotone", lambda old, new: (new._completed >= old._completed) & (new._rejected >= old._rejected))])
+
+
+def _pc_reserved(o):
+    if not PC_HANDOFF_REPAIRED:
+        return 0
+    return slen(o._handoffs)
+
+
+def assume_unique_event_id(o, e):
+    """ghost assumption (see the top of this file): a new event's id is not among the recorded hand-over ids"""
+    assume(Not(contains(o._handoffs, e._id)))
+
+
+ctor(PooledCycleResource, args={"name": Str, "pool_size": Int, "cycle_time": Real, "downstream": OptRef(Entity),
+                                "queue_capacity": Int}, setup=_attached, teardown=_detach,
+     ensures=[("all-units-available-nothing-waits", lambda s: (s.self._available == s.pool_size) & (s.self._active == 0)
+               & (slen(s.self._queue) == 0) & (s.self._completed == 0) & (s.self._rejected == 0)
+               & (s.self._queue_capacity == s.queue_capacity))],
+     raises={ValueError: [("only-bad-config", lambda s: (s.pool_size <= 0) | (s.cycle_time < 0))]})
+
+
+def _pc_is_handoff(s):
+    """(repair) the offered event is a hand-over event: a dequeued item arriving with the unit reserved for it"""
+    if not PC_HANDOFF_REPAIRED:
+        return False
+    return _truthy_path(contains(s.old(s.self)._handoffs, s.old(s.event)._id))
+
+
+def _pc_split_result(s):
+    """(the event for downstream, the hand-over events to the resource itself) of the result"""
+    r = list(s.result)
+    if s.self.downstream is None:       # (by position: the downstream may be the resource itself)
+        return [], r
+    return r[:1], r[1:]
+
+
+def _pc_offer_post(s):
+    """an offered item starts a cycle iff a unit is free for it; otherwise it waits at the back of the queue, or is
+    rejected-and-counted when the waiting room is full"""
+    o, n = s.old(s.self), s.self
+    if _yielded(s):
+        return True if _pc_is_handoff(s) else o._available > 0
+    if _pc_is_handoff(s):
+        return False            # a hand-over event always starts its cycle
+    full = (o._queue_capacity > 0) & (slen(o._queue) >= o._queue_capacity)
+    frame = unchanged(s, s.self, "_available", "_active", "_completed") & (len(s.result) == 0)
+    rejected = (n._rejected == o._rejected + 1) & mk_bool(_evseq(n._queue) == _evseq(o._queue))
+    queued = (n._rejected == o._rejected) & mk_bool(_evseq(n._queue) == z3.Concat(_evseq(o._queue), z3.Unit(s.event._ref)))
+    return (o._available == 0) & frame & ite_b(full, rejected, queued)
+
+
+def _pc_cycle_at_yield(s, y):
+    o, n = s.old(s.self), s.self
+    ok = (y == n.cycle_time) & (n._active == o._active + 1) & mk_bool(_evseq(n._queue) == _evseq(o._queue)) \
+        & unchanged(s, s.self, "_completed", "_rejected")
+    if hasattr(s, "event") and _pc_is_handoff(s):
+        # the reserved unit becomes the active one; the reservation is consumed
+        return ok & (n._available == o._available) & Not(contains(n._handoffs, s.old(s.event)._id)) \
+            & (_pc_reserved(n) == _pc_reserved(o) - 1)
+    return ok & (n._available == o._available - 1) & (_pc_reserved(n) == _pc_reserved(o))
+
+
+def _pc_completed_post(s):
+    """completed exactly once; the unit is released exactly then and goes to the head of the queue if anything waits"""
+    if not _yielded(s):
+        return True
+    p, n = s.pre(s.self), s.self
+    got = _pc_split_result(s)
+    down, hand = got
+    ok = (n._completed == p._completed + 1) & (n._active == p._active - 1) & (n._rejected == p._rejected)
+    if n.downstream is None:
+        if len(down) != 0:
+            return False
+    else:
+        if len(down) != 1:
+            return False
+        e = down[0]
+        ok = ok & same(e.target, n.downstream) & (ns(e.time) == now_ns(n)) & (e.event_type == s.event.event_type)
+    if len(hand) == 0:
+        # nothing waited: the unit is simply free again
+        return ok & (slen(p._queue) == 0) & (n._available == p._available + 1) & (slen(n._queue) == 0) \
+            & (_pc_reserved(n) == _pc_reserved(p))
+    if len(hand) != 1:
+        return False
+    h = hand[0]
+    head = Ref(Event).wrap(_evseq(p._queue)[0])
+    ok = ok & (slen(p._queue) > 0) & mk_bool(_evseq(n._queue) == z3.Extract(_evseq(p._queue), 1, num(slen(p._queue)) - 1)) \
+        & same(h.target, n) & (ns(h.time) == now_ns(n)) & (h.event_type == head.event_type) & Not(h._cancelled)
+    if PC_HANDOFF_REPAIRED:
+        # the item taken out of the queue owns the freed unit: no arrival can take it before the hand-over is delivered
+        ok = ok & (n._available == p._available) & contains(n._handoffs, h._id) & (_pc_reserved(n) == _pc_reserved(p) + 1)
+    else:
+        ok = ok & (n._available == p._available + 1)
+    return ok
+
+
+_PC_YIELDS = dict(stable=_BP_STABLE + [("Event", "_id")],
+                  # the unit this cycle occupies is still counted as active when it resumes
+                  rely=_OWN_UNIT_RELY + [lambda s, b, y: s.self._active >= 1])
+
+fn(PooledCycleResource, "handle_event", args={"event": Ref(Event, variants=[Event])},
+   yields=Yields(at_yield=[("unit-busy-for-the-cycle-time", _pc_cycle_at_yield)], **_PC_YIELDS),
+   ensures=[("starts-iff-unit-free-else-waits-or-rejected-and-counted", _pc_offer_post),
+            ("completed-once-unit-released-to-head-of-queue", _pc_completed_post)])
+fn(PooledCycleResource, "_start_cycle", args={"event": Ref(Event, variants=[Event])},
+   requires=[("a-unit-is-free", lambda s: s.self._available >= 1)],
+   yields=Yields(at_yield=[("unit-busy-for-the-cycle-time", lambda s, y: (y == s.self.cycle_time)
+                            & (s.self._active == s.old(s.self)._active + 1)
+                            & (s.self._available == s.old(s.self)._available - 1))], **_PC_YIELDS),
+   ensures=[("completed-once-unit-released-to-head-of-queue", _pc_completed_post)])
+
+
+# ---- InspectionStation (components/industrial/inspection.py): a QueuedResource whose service is an inspection with a
+# random verdict; every inspected item is forwarded exactly once, to the pass target or to the fail target
+from happysimulator.components.industrial import inspection as _insp_mod  # noqa: E402
+from happysimulator.components.industrial.inspection import InspectionStation  # noqa: E402
+
+cls(InspectionStation, fields={"pass_target": Ref(Entity), "fail_target": Ref(Entity), "inspection_time": Real,
+                               "pass_rate": Real, "_inspected": Int, "_passed": Int, "_failed": Int},
+    const=["pass_target", "fail_target", "inspection_time", "pass_rate"],
+    inv=[("config", lambda o: (o.pass_rate >= 0) & (o.pass_rate <= 1) & (o.inspection_time >= 0)),
+         ("every-inspected-item-passed-or-failed", lambda o: (o._inspected == o._passed + o._failed)
+          & (o._passed >= 0) & (o._failed >= 0))],
+    guarantee=[("counters-monotone", lambda old, new: (new._passed >= old._passed) & (new._failed >= old._failed))])
+
+
+def _insp_post(s):
+    p, n = s.pre(s.self), s.self
+    r = s.result
+    if len(r) != 1:
+        return False
+    e = r[0]
+    passed = n._passed == p._passed + 1
+    return _yielded(s) & (n._inspected == p._inspected + 1) \
+        & (((n._passed == p._passed + 1) & (n._failed == p._failed)) | ((n._passed == p._passed) & (n._failed == p._failed + 1))) \
+        & ite_b(passed, same(e.target, n.pass_target), same(e.target, n.fail_target)) \
+        & (ns(e.time) == now_ns(n)) & (e.event_type == s.event.event_type) \
+        & implies(n.pass_rate == 1, passed) & implies(n.pass_rate == 0, Not(passed))
+
+
+fn(InspectionStation, "handle_queued_event", args={"event": Ref(Event, variants=[Event])}, **_draw_env(_insp_mod),
+   yields=Yields(at_yield=[("inspection-takes-the-inspection-time", lambda s, y: (y == s.self.inspection_time)
+                            & unchanged(s, s.self, "_inspected", "_passed", "_failed"))],
+                 stable=_BP_STABLE, rely=_OWN_UNIT_RELY),
+   ensures=[("inspected-once-and-forwarded-once-to-the-target-of-its-verdict", _insp_post)])
+
+
+# ---- RenegingQueuedResource (components/industrial/reneging.py): an item whose patience ran out while it waited is
+# reneged-and-counted (a legal 'rejected' state) and is NOT served; every other item is served exactly once
+from happysimulator.components.industrial.reneging import RenegingQueuedResource  # noqa: E402
+
+cls(RenegingQueuedResource, fields={"reneged_target": OptRef(Entity), "default_patience_s": RealInf, "_served": Int,
+                                    "_reneged": Int},
+    const=["reneged_target", "default_patience_s"],
+    inv=[("counters-nonneg", lambda o: (o._served >= 0) & (o._reneged >= 0))])
+_HSE = stub_of(RenegingQueuedResource, "_handle_served_event", returns=Any, modifies="world")
+_HSE.keeps = [("RenegingQueuedResource", "_served"), ("RenegingQueuedResource", "_reneged"),
+              ("RenegingQueuedResource", "reneged_target")]
+
+
+def _reneging_post(s):
+    o, n = s.old(s.self), s.self
+    calls = _calls("RenegingQueuedResource._handle_served_event")
+    if len(_pyvc_ctx.cur().ghost_args.get("trace", [])) != len(calls):
+        return False
+    if len(calls) == 0:
+        # reneged: counted once, not served, announced once to the reneged target (if there is one)
+        ok = (n._reneged == o._reneged + 1) & (n._served == o._served)
+        r = s.result
+        if n.reneged_target is None:
+            return ok & (len(r) == 0)
+        if len(r) != 1:
+            return False
+        e = r[0]
+        return ok & same(e.target, n.reneged_target) & (e.event_type == "Reneged") & (ns(e.time) == now_ns(n))
+    if len(calls) != 1:
+        return False
+    _, vals, res = calls[0]
+    return (n._served == o._served + 1) & (n._reneged == o._reneged) & same(vals["self"], s.self) \
+        & same(vals["event"], s.event) & same(res, s.result)
+
+
+fn(RenegingQueuedResource, "handle_queued_event", args={"event": Ref(Event, variants=[Event])},
+   uses=[(RenegingQueuedResource, "_handle_served_event")],
+   ensures=[("reneged-and-counted-and-never-served-or-served-exactly-once", _reneging_post)])
+
+
+# ---- bounded stand-in for the industrial variants as whole pipelines (labelled bounded): exactly-once accounting over
+# complete runs, the flush bound of BatchProcessor (nothing stranded - also when the timeout fires while a batch is in
+# service), the renege DECISION (which reads `created_at` from the untyped event context), FIFO hand-over of
+# PooledCycleResource (once its repair is in the tree)
+def _industrial(seed, tier):
+    return run_native_script("triage/c08_industrial.py", tier)
+
+
+PROPERTY["bounded"].append({"name": "industrial-buffers",
+                            "bound": "150 (thorough: 2000) seeded runs per component (BatchProcessor, ConveyorBelt, "
+                                     "GateController, PooledCycleResource, RenegingQueuedResource with one worker): 1..14 items "
+                                     "on a 0.1 s grid (several at one instant), sizes / capacities / pool sizes in 0..5, "
+                                     "constant service times",
+                            "fn": _industrial})
+
+PROPERTY["assumptions"] += [
+    "part G: BatchProcessor with batch_size == 1 AND timeout_s > 0 is excluded until fixes/C08_batch-processor-full-batch-"
+    "first.diff is applied (finding C08/batch-of-one-with-timeout-exceeds-batch-size); BatchProcessor has no concurrency "
+    "limit of its own (a full batch or a timeout starts a batch while another is in service; `_processing` is a flag, not "
+    "a count) - 'work in service' is bounded per batch (batch_size), not per processor",
+    "part G: the output loop of BatchProcessor._process_batch and the release loop of GateController._do_open are cut by "
+    "loop invariants that forget the fields of all older Event objects (no frame for them): what the clauses say about "
+    "the outputs is relative to the item fields in the final state; Event.__init__ runs inlined",
+    "part G: while a ConveyorBelt item / a PooledCycleResource cycle is suspended the unit it added to _items_in_transit / "
+    "_active is still counted when it resumes (other processes add / remove only their own)",
+    "part G: PooledCycleResource on the current tree re-sends a dequeued item without reserving the freed unit (finding "
+    "C08/pooled-cycle-handoff-overtaken, fixes/C08_pooled-cycle-handoff-reserves-unit.diff); the clause 'the dequeued item "
+    "owns the freed unit' is active only on the repaired tree, where event ids are assumed unique (C03) at the one place "
+    "a hand-over id is recorded",
+    "part G: InspectionStation's random.random() is an arbitrary real in [0, 1); InspectionStation and "
+    "RenegingQueuedResource declare no concurrency limit (has_capacity of the subclass decides); the renege DECISION "
+    "reads created_at / patience_s from the untyped event context and is covered by the bounded stand-in "
+    "`industrial-buffers` only - the deductive clause is: reneged-and-counted XOR handed to _handle_served_event exactly once",
+]
